@@ -1,4 +1,68 @@
 from checks.gencommon import *
 
+ANNOT = {"any": 1, "internal": 2, "kphp": 4, "read": 8, "readwrite": 0x10, "write": 0x20}
+
+
+def registry(c, key, schema, optname, opts, tier):
+    """C17 registry part for one TL1 schema: expectations from the canonical listing, harness package vmod/<k>/zzreg"""
+    k = "%s_%s_reg" % (key, optname)
+    pkgdir, txt = generate(c.tl2gen, c.mod, k, [schema], opts)
+    if not pkgdir:
+        c.problems.append("generation failed for %s [%s]: %s" % (key, optname, txt[-600:]))
+        return
+    canon = os.path.join(c.mod, k, "canonical.txt")
+    rc, txt = sh([c.tl2gen, "--language=canonical", "--outfile=" + canon, schema], cwd=c.mod)
+    if rc != 0 or not os.path.exists(canon):
+        c.problems.append("canonical listing failed for %s: %s" % (key, txt[-400:]))
+        return
+    expect, ctors = [], {}
+    for line in open(canon):
+        line = line.split(" //")[0].strip()
+        m = re.match(r"^((?:@\w+ )*)([\w.]+)#([0-9a-f]{8}) (.*)= (.*)$", line)
+        if not m:
+            continue
+        annots, name, tag, args, res = m.groups()
+        if "{" in args or "?" == args.strip():  # generic combinators and builtin wrappers of primitives: see below
+            if "{" in args:
+                continue
+        fn = bool(annots.strip())
+        a = 0
+        for w in annots.split():
+            a |= ANNOT.get(w[1:], 0)
+        tname = res.split()[0]
+        if not fn and tname == "Bool":
+            continue  # Bool is mapped to the Go bool: its constructors are not items
+        expect.append((name, int(tag, 16), fn, a))
+        if not fn:
+            ctors[tname] = ctors.get(tname, 0) + 1
+    types = [t for t, n in ctors.items() if n >= 2]  # union types are items of their own (tag 0)
+    gen = os.path.join(c.mod, k, "gen")
+    pubs = sorted(d for d in os.listdir(gen) if d.startswith("tl") and os.path.isdir(os.path.join(gen, d)) and d != "tl")
+    base = "vmod/%s/gen/" % k
+    imports = ['\t"%smeta"' % base, '\t_ "%sfactory"' % base] + ['\t_ "%s%s"' % (base, d) for d in pubs]
+    pkgs = [base + "internal/metainternal"] + [base + d for d in pubs] + [base + "meta", base + "factory"]
+    src = open(os.path.join(VERIF, "harness", "reg", "zz_verif_c17reg.go.tmpl")).read()
+    src = src.replace("IMPORTS", "\n".join(imports)).replace("EXPECT", "\n".join('\t{%s, 0x%08x, %s, 0x%x},' % (json.dumps(n), t, "true" if f else "false", a) for n, t, f, a in expect))
+    src = src.replace("TYPES", "\n".join("\t%s," % json.dumps(t) for t in types)).replace("PKGS", "\n".join("\t%s," % json.dumps(p) for p in pkgs))
+    src = src.replace("HASTL2", "true" if "--tl2WhiteList=*" in opts else "false")
+    rdir = os.path.join(c.mod, k, "zzreg")
+    os.makedirs(rdir, exist_ok=True)
+    open(os.path.join(rdir, "doc.go"), "w").write("package zzreg\n")
+    hf = os.path.join(rdir, "zz_verif_c17reg.go")
+    open(hf, "w").write(src)
+    c.programs += 1
+    c.run_pkg(c.mod, "./%s/zzreg" % k, rdir, "zzreg", [hf], "^VerifC17Registry$", params={}, label="%s[%s]/registry" % (key, optname), max_models=4,
+              wall="60s" if tier == "quick" else "600s", soft_trunc="record")
+
+
 def run(tier):
-    return run_gen("C17", tier, "^VerifC17", **SPEC["C17"])
+    spec = dict(SPEC["C17"])
+    c = run_gen("C17", tier, "^VerifC17", finish=False, **spec)
+    pat = os.environ.get("VERIF_F_PATTERN") or "*"
+    for key, schemas in corpus_f(pat):
+        if not schemas[0].endswith(".tl"):
+            continue
+        registry(c, key, schemas[0], "full", OPTSETS["full"], tier)
+        registry(c, key, schemas[0], "split", OPTSETS["full"] + ["--split-internal"], tier)
+    c.assumptions.append("registry part: per TL1 corpus schema and layout (single internal package / --split-internal with the public namespace packages imported next to meta and factory), expectations (name, tag, function-ness, annotation flags of every non-generic combinator; union type names) parsed from the generator's canonical listing; lookup by name for every combinator, lookup by tag for EVERY 32-bit value; uniqueness of names and tags; factory-created objects report name and tag and their boxed zero value starts with the tag")
+    return c.finish(**c._finish_kw)
